@@ -1,6 +1,6 @@
 (* C08 - closing a connection releases everything and silences it. *)
 From Coq Require Import NArith ZArith List Bool.
-From Verif Require Import Model.Conn Proofs.ConnCore Proofs.ConnRun Proofs.ConnQuiet.
+From Verif Require Import Model.Conn Proofs.ConnCore Proofs.ConnRun Proofs.ConnQuiet Proofs.ConnCancel Proofs.ConnGuard Proofs.ConnUnblock Proofs.ConnKick.
 Import ListNotations.
 
 (* (a) in every reachable closed state: keepalive and pong timers cancelled, no pending waiter, socket closed,
@@ -34,4 +34,47 @@ Example C08_trailing_frames_dropped :
   option_map (fun r => last (snd r) [])
     (run (init false false 20480 []) (connect ++ [LData [DFrame switch; DFrame discreq; DFrame switch; DFrame ping]]))
   = Some [ODeliver 1 switch; OWrite [T_DISC_RESP]; OHelperClose; OTransportClose; OSocketClose; OStop true].
+Proof. vm_compute. reflexivity. Qed.
+
+(* (c) no request/response coroutine stays blocked on a closed connection.  Over all runs: a call future that is pending is
+   registered as a waiter; the close fails every waiter, so a closed connection has no pending call future; and every task that
+   awaits a call - a user request, the hello / login of finish_connection, the request of disconnect() - can be resumed at once *)
+Theorem C08_pending_call_is_waiter : forall n e ka scr ls c os k,
+  run (init n e ka scr) ls = Some (c, os) -> In k (calls c) -> c_fut k = CPending -> In (c_id k) (waiters c).
+Proof. exact pending_call_is_waiter. Qed.
+Theorem C08_closed_no_pending_call : forall n e ka scr ls c os k,
+  run (init n e ka scr) ls = Some (c, os) -> cs c = Closed -> In k (calls c) -> c_fut k <> CPending.
+Proof. exact closed_no_pending_call. Qed.
+Theorem C08_closed_call_task_resumes : forall n e ka scr ls c os t cid,
+  run (init n e ka scr) ls = Some (c, os) -> cs c = Closed -> awaited (pc (get_task c t)) = Some cid ->
+  ready_now c t /\ step c (LWake t) <> None.
+Proof. exact closed_call_task_resumes. Qed.
+
+(* (d) the connect coroutines and the wait of disconnect(): on a closed connection a suspended connect coroutine has been
+   interrupted already, or the done-callback of its connect future (label LIntr) is enabled - and for start_connection leaves
+   it resumable; the wait of disconnect() for the connect phase is over or can be released right now (CK2, Proofs/ConnKick.v) *)
+Theorem C08_closed_start_interruptible : forall n e ka scr ls c os,
+  run (init n e ka scr) ls = Some (c, os) -> cs c = Closed -> phase_running (pc (t_start c)) = true ->
+  intr_start c = IFired \/ exists c', step c (LIntr true) = Some (c', []) /\ ready_now c' TStart.
+Proof. exact closed_start_interruptible. Qed.
+Theorem C08_closed_finish_interruptible : forall n e ka scr ls c os,
+  run (init n e ka scr) ls = Some (c, os) -> cs c = Closed -> phase_running (pc (t_finish c)) = true ->
+  intr_finish c = IFired \/ exists c', step c (LIntr false) = Some (c', []).
+Proof. exact closed_finish_interruptible. Qed.
+Theorem C08_closed_disconnect_wait_released : forall n e ka scr ls c os,
+  run (init n e ka scr) ls = Some (c, os) -> cs c = Closed -> pc (t_disc c) = PD_Wait ->
+  disc_wait_done c = true \/ step c LDiscWaitDone <> None.
+Proof. exact closed_disconnect_wait_released. Qed.
+Example C08_force_during_resolve_interrupts :
+  option_map (fun r => (cs (fst r), pc (t_start (fst r)), intr_start (fst r), start_fut (fst r)))
+    (run (init false false 20480 []) [LStart; LForce]) = Some (Closed, PS_Resolve, IArmed, FDone).
+Proof. vm_compute. reflexivity. Qed.
+
+(* non-vacuity: two calls outstanding when the peer resets the connection; both futures hold the error, both tasks resume *)
+Example C08_two_calls_fail_at_close :
+  option_map (fun r => (cs (fst r), map c_fut (calls (fst r)), waiters (fst r)))
+    (run (init false false 20480 [])
+       (firstn 13 connect ++ [LCallStart [T_PING_REQ] [T_PING_RESP] PAny PAny 1024; LCallStart [T_TIME_REQ] [T_TIME_RESP] PAny PAny 2048;
+                              LLost (Some (Raw RReset)); LConnLostCb]))
+  = Some (Closed, [CResult; CExc (Lib LReadFailed); CExc (Lib LReadFailed)], []).
 Proof. vm_compute. reflexivity. Qed.
